@@ -230,8 +230,11 @@ def finish(prop, spec, results, bounded, tier, seed, t0, verbose=False, partial=
         if fid in seen:
             continue
         seen.add(fid)
-        f = next(x for x in known if x['id'] == fid)
-        lines.append(f'KNOWN-FINDING: property={prop} {fid} {f["what"]}')
+        f = next((x for x in known if x['id'] == fid), None) or next((x for x in open_findings() if x['id'] == fid), None)
+        if f is None:
+            continue
+        # a finding recorded under another property can surface through a shared contract: it is the same listed defect
+        lines.append(f'KNOWN-FINDING: property={prop} {fid} {f["what"]}' + ('' if f['property'] == prop else f' (recorded under {f["property"]})'))
     for f in known:
         if f['id'] not in seen and not partial:
             lines.append(f'NOTE: known finding {f["id"]} of {prop} was not reproduced by this run')
